@@ -52,8 +52,8 @@ CHECKS = {
  "C17": ("exploration", "bounded-exhaustive enumeration of capacity limits at L-1, L, L+1, far beyond, alone and in pairs, built through the API, saved and reloaded on the real code",
          "13 capacity limits; at or below L the content must round-trip (C01 projection); above L saving must throw or the reload must equal the saved object (anything else is silent corruption).",
          "pairs with > 10^7 points not built; last-frame-number limit covered by C12's header sweep", "§3 C17", "misc"),
- "C18": ("model_checking", "stateless preemption-bounded exhaustive schedule exploration of the real code under a cooperative scheduler (function entry/exit + libc I/O scheduling points) + free-running ThreadSanitizer pass",
-         "2-thread (thorough: also 3-thread) groups of bodies on independent objects; all thread orders, one preemption at every one of ~10^4 fine points per thread, two preemptions over all pairs of coarse points; every schedule is a real execution whose per-thread digest (dump after every op, saved bytes, exception classes) must equal the body run alone; diverging schedules are re-run before being reported. The same bodies run free under TSan (hand-offs of a cooperative scheduler would blind it).",
+ "C18": ("model_checking", "stateless preemption-bounded exhaustive schedule exploration of the real code under a cooperative scheduler (scheduling points: library function entry/exit, operator new/delete, libc I/O; every schedule in a fresh process) + free-running ThreadSanitizer pass",
+         "2-thread (thorough: also 3-thread) groups of bodies on independent objects; all thread orders, one preemption at every one of ~1.3-2.1*10^4 fine points per thread, two preemptions over all pairs of coarse points; every schedule is a real execution whose per-thread digest (dump after every op, saved bytes, exception classes) must equal the body run alone; diverging schedules are re-run before being reported. The same bodies run free under TSan (hand-offs of a cooperative scheduler would blind it).",
          "sub-function interleavings and weak memory only via the TSan pass", "§3 C18", "sched"),
  "C19": ("exploration", "configuration matrix: the six supported CMake builds each run the same deterministic exhaustive corpora; transcripts compared line by line",
          "Debug/RelWithDebInfo/Release x shared/static built with the project's CMakeLists; corpora: three API state spaces (every transition with outcome class + successor hash + saved-file digest per state), the file corpus through load/save generations, all integer/float pattern files, the setter shape table.",
